@@ -97,6 +97,11 @@ func (c *Ctx) inlineView(root *ssa.Function, depth int) *iview {
 				// splice a callee in: the call node leads into it, its returns lead to what follows the call
 				if ci, ok := in.(*ssa.Call); ok && fr.depth < depth {
 					if g := ci.Common().StaticCallee(); g != nil && len(g.Blocks) > 0 && c.inlinable(root, fr, g) {
+						// inside a generic body a call to a sibling generic method goes to an instance whose
+						// type arguments are the type parameters themselves; the code is the origin's
+						if og := core.Origin(g); og != g && len(og.Blocks) > 0 && core.Origin(root) == root && root.Signature.Recv() != nil && og.Signature.Recv() != nil {
+							g = og
+						}
 						child := &iframe{fn: g, parent: fr, call: ci, depth: fr.depth + 1}
 						ge, gx := expand(child)
 						v.edge(n.id, ge)
